@@ -230,7 +230,7 @@ func (oracleC12) Step(x *OCtx, t *Trans) []Violation {
 			}
 			n++
 			x.Wit("C12:response-callback")
-			if fmt.Sprint(g.Outputs) != fmt.Sprint(w.outputs) {
+			if sortedJoin(g.Outputs) != sortedJoin(w.outputs) {
 				add("callback-carries-exactly-the-nonempty-outputs", x.Sc.ctxName(w.ctx), fmt.Sprintf("callback outputs %v, batch outputs %v", g.Outputs, w.outputs))
 			}
 			if g.HasErr != w.wantErr {
@@ -365,4 +365,10 @@ func (oracleC08) Step(x *OCtx, t *Trans) []Violation {
 		out = append(out, viol("C08", "rejected-response-changes-nothing", "respond", why, "a rejected response changed the state"))
 	}
 	return out
+}
+
+func sortedJoin(xs []string) string {
+	c := append([]string{}, xs...)
+	sort.Strings(c)
+	return fmt.Sprint(len(c), c)
 }
